@@ -11,8 +11,11 @@ package main
 import (
 	"fmt"
 	"go/ast"
+	"go/build"
 	"go/constant"
+	"go/parser"
 	"go/token"
+	"path/filepath"
 	"strings"
 )
 
@@ -79,6 +82,34 @@ func (c *c02Ctx) knownConst(e ast.Expr) (constant.Value, bool) {
 				return constant.MakeInt64(u), true
 			}
 		}
+		if id, ok := x.X.(*ast.Ident); ok && id.Name == "http" && strings.HasPrefix(x.Sel.Name, "Status") {
+			return c02StdConst("net/http/status.go", x.Sel.Name)
+		}
+	}
+	return nil, false
+}
+
+// c02StdConst reads an integer constant of the Go standard library (the toolchain the extractor was built with).
+func c02StdConst(rel, name string) (constant.Value, bool) {
+	f, err := parser.ParseFile(token.NewFileSet(), filepath.Join(build.Default.GOROOT, "src", rel), nil, parser.SkipObjectResolution)
+	if err != nil {
+		return nil, false
+	}
+	for _, d := range f.Decls {
+		gd, ok := d.(*ast.GenDecl)
+		if !ok || gd.Tok != token.CONST {
+			continue
+		}
+		for _, sp := range gd.Specs {
+			vs := sp.(*ast.ValueSpec)
+			for i, n := range vs.Names {
+				if n.Name == name && i < len(vs.Values) {
+					if bl, ok := vs.Values[i].(*ast.BasicLit); ok && bl.Kind == token.INT {
+						return constant.MakeFromLiteral(bl.Value, bl.Kind, 0), true
+					}
+				}
+			}
+		}
 	}
 	return nil, false
 }
@@ -123,6 +154,10 @@ func (c *c02Ctx) intExpr(e ast.Expr) string {
 				case "math.Round":
 					return "(goRound " + c.ratExpr(inner.Args[0]) + ")"
 				}
+			}
+			if strings.Contains(c.s.src(x.Args[0]), "float64(") {
+				// int64(<float64 expression>): truncation towards zero
+				return "(goTrunc " + c.ratExpr(x.Args[0]) + ")"
 			}
 			return c.intExpr(x.Args[0])
 		case fn == "timex.Since" && len(x.Args) == 1:
@@ -212,6 +247,12 @@ func (c *c02Ctx) boolExpr(e ast.Expr, mode string) string {
 				return c.use(n, "Bool")
 			}
 			// as.droppedRecently.True() -> droppedRecently_True
+		}
+		if c02CallName(c.s, x) == "errors.Is" && len(x.Args) == 2 {
+			// errors.Is(err, context.DeadlineExceeded) -> the Bool variable errorsIs_err_context_DeadlineExceeded
+			// (subject and target are part of the name: Tie.lean binds it by name)
+			name := "errorsIs_" + strings.NewReplacer(".", "_", " ", "").Replace(c.s.src(x.Args[0])+"."+c.s.src(x.Args[1]))
+			return c.use(name, "Bool")
 		}
 	case *ast.BinaryExpr:
 		switch x.Op {
@@ -469,9 +510,154 @@ func (e *emitter) c02ShapeKeep(s *source, rel, goName, lean string, keep ...stri
 	e.stringList(lean, "skeleton of `"+goName+"` in "+rel+" (control structure + calls mentioning "+strings.Join(keep, ", ")+")", out)
 }
 
+
+// c02DeferFunc returns the n-th deferred function literal inside a function, wrapped as a FuncDecl.
+func c02DeferFunc(s *source, rel, goName string, n int) *ast.FuncDecl {
+	fd := s.findFunc(rel, goName)
+	if fd == nil {
+		return nil
+	}
+	d, ok := c02Nth(fd, n, func(d *ast.DeferStmt) bool { _, is := d.Call.Fun.(*ast.FuncLit); return is })
+	if !ok {
+		return nil
+	}
+	fl := d.Call.Fun.(*ast.FuncLit)
+	return &ast.FuncDecl{Name: ast.NewIdent(goName + "_defer"), Type: fl.Type, Body: fl.Body}
+}
+
+// c02StmtCalls lists what a statement list does at its top level: the callee of every call statement, "x = callee" /
+// "x := callee" for assignments from a call, "return", "defer", "if <cond>" (not descended into).
+func c02StmtCalls(s *source, list []ast.Stmt, skip ...string) []string {
+	var out []string
+	for _, st := range list {
+		tok := ""
+		switch x := st.(type) {
+		case *ast.ExprStmt:
+			if call, ok := x.X.(*ast.CallExpr); ok {
+				tok = "call " + s.src(call.Fun)
+			}
+		case *ast.AssignStmt:
+			if len(x.Rhs) == 1 {
+				if call, ok := x.Rhs[0].(*ast.CallExpr); ok {
+					var l []string
+					for _, e := range x.Lhs {
+						l = append(l, s.src(e))
+					}
+					tok = strings.Join(l, ",") + " " + x.Tok.String() + " " + s.src(call.Fun)
+				}
+			}
+		case *ast.ReturnStmt:
+			tok = "return"
+		case *ast.DeferStmt:
+			tok = "defer"
+		case *ast.IfStmt:
+			tok = "if " + s.src(x.Cond)
+		case *ast.DeclStmt:
+			continue
+		}
+		if tok == "" {
+			tok = "stmt " + s.src(st)
+		}
+		drop := false
+		for _, k := range skip {
+			if strings.Contains(tok, k) {
+				drop = true
+			}
+		}
+		if !drop {
+			out = append(out, tok)
+		}
+	}
+	return out
+}
+
+// c02IfBranches emits, for the n-th if statement of fd, the condition (translated, Int mode) and the top-level calls of
+// its then- and else-branch.
+func (e *emitter) c02IfBranches(s *source, rel string, fd *ast.FuncDecl, n int, lean string, skip ...string) {
+	if fd == nil {
+		e.errors = append(e.errors, lean+": function not found in "+rel)
+		e.stringList(lean+"Then", "MISSING", []string{"MISSING"})
+		e.stringList(lean+"Else", "MISSING", []string{"MISSING"})
+		return
+	}
+	ifs, ok := c02Nth(fd, n, func(a *ast.IfStmt) bool { return true })
+	if !ok {
+		e.errors = append(e.errors, lean+": if statement not found in "+fd.Name.Name)
+		e.stringList(lean+"Then", "MISSING", []string{"MISSING"})
+		e.stringList(lean+"Else", "MISSING", []string{"MISSING"})
+		return
+	}
+	e.stringList(lean+"Then", "then-branch of `if "+s.src(ifs.Cond)+"` in "+fd.Name.Name+", "+rel, c02StmtCalls(s, ifs.Body.List, skip...))
+	var els []string
+	if b, ok := ifs.Else.(*ast.BlockStmt); ok {
+		els = c02StmtCalls(s, b.List, skip...)
+	}
+	e.stringList(lean+"Else", "else-branch of `if "+s.src(ifs.Cond)+"` in "+fd.Name.Name+", "+rel, els)
+}
+
+// c02ExprFd is c02Expr for an already located function (a deferred literal, a function-valued variable).
+func (e *emitter) c02ExprFd(s *source, rel string, fd *ast.FuncDecl, lean, mode string, pick c02Pick) {
+	if fd == nil {
+		e.errors = append(e.errors, lean+": function not found in "+rel)
+		e.printf("/-- MISSING -/\ndef %s : Unit := ()\n\n", lean)
+		return
+	}
+	f := s.file(rel)
+	f.Decls = append(f.Decls, fd)
+	e.c02Expr(s, rel, fd.Name.Name, lean, mode, pick)
+	f.Decls = f.Decls[:len(f.Decls)-1]
+}
+
+// innermost function literal (by nesting depth n) whose body is given to handler wrappers: SheddingHandler returns
+// func(next) http.Handler { return http.HandlerFunc(func(w, r) {...}) } -- the request function is the literal that
+// contains the call `shedder.Allow`.
+func c02FuncLitWith(s *source, rel, goName, callee string) *ast.FuncDecl {
+	fd := s.findFunc(rel, goName)
+	if fd == nil {
+		return nil
+	}
+	var best *ast.FuncLit
+	ast.Inspect(fd.Body, func(nd ast.Node) bool {
+		if fl, ok := nd.(*ast.FuncLit); ok {
+			direct := false
+			for _, st := range fl.Body.List {
+				ast.Inspect(st, func(m ast.Node) bool {
+					if _, isLit := m.(*ast.FuncLit); isLit {
+						return false
+					}
+					if call, ok := m.(*ast.CallExpr); ok && s.src(call.Fun) == callee {
+						direct = true
+					}
+					return true
+				})
+			}
+			if direct {
+				best = fl
+			}
+		}
+		return true
+	})
+	if best == nil {
+		return nil
+	}
+	return &ast.FuncDecl{Name: ast.NewIdent(goName + "_request"), Type: best.Type, Body: best.Body}
+}
+
+func pickFieldN(key string, n int) c02Pick {
+	return func(s *source, fd *ast.FuncDecl) (ast.Expr, bool) {
+		a, ok := c02Nth(fd, n, func(a *ast.KeyValueExpr) bool { return s.src(a.Key) == key })
+		if !ok {
+			return nil, false
+		}
+		return a.Value, true
+	}
+}
+
 const c02Prelude = `/-- meaning given to math.Ceil / math.Round (half away from zero) / mathx.AtLeast / mathx.Between on exact values -/
 def goCeil (x : Rat) : Int := x.ceil
 def goRound (x : Rat) : Int := if 0 ≤ x then (x + 1 / 2).floor else -((-x + 1 / 2).floor)
+/-- int64(x) of a float64: truncation towards zero -/
+def goTrunc (x : Rat) : Int := if 0 ≤ x then x.floor else x.ceil
 def atLeast (x lower : Rat) : Rat := if x < lower then lower else x
 def between (x lower upper : Rat) : Rat := if x < lower then lower else if x > upper then upper else x
 
@@ -585,5 +771,75 @@ func init() {
 		e.shapeDef(s, "core/mathx/range.go", "Between", "betweenShape")
 		e.c02ShapeKeep(s, "rest/handler/sheddinghandler.go", "SheddingHandler", "sheddingHandlerShape", "shedder.Allow", "promise.", "ServeHTTP", "WriteHeader")
 		e.c02ShapeKeep(s, "zrpc/internal/serverinterceptors/sheddinginterceptor.go", "UnarySheddingInterceptor", "sheddingInterceptorShape", "shedder.Allow", "promise.", "call handler", "status.Error")
+		// ---- round 4: construction, options, group, default checker, sampler, call sites
+		e.c02Expr(s, f, "NewAdaptiveShedder", "newDefaultWindow", "Int", pickFieldN("window", 0))
+		e.c02Expr(s, f, "NewAdaptiveShedder", "newDefaultBuckets", "Int", pickFieldN("buckets", 0))
+		e.c02Expr(s, f, "NewAdaptiveShedder", "newDefaultThreshold", "Int", pickFieldN("cpuThreshold", 0))
+		e.c02Text(s, f, "NewAdaptiveShedder", "newThresholdForwarded", pickFieldN("cpuThreshold", 1))
+		e.c02Text(s, f, "NewAdaptiveShedder", "newEnabledGuard", pickIf(0))
+		e.c02Text(s, f, "NewAdaptiveShedder", "newOptionApplied", pickCallArg("opt", 0, 0))
+		e.c02Text(s, f, "NewAdaptiveShedder", "newPassCounterSize", pickCallArg("collection.NewRollingWindow[int64, *collection.Bucket[int64]]", 0, 1))
+		e.c02Text(s, f, "NewAdaptiveShedder", "newPassCounterInterval", pickCallArg("collection.NewRollingWindow[int64, *collection.Bucket[int64]]", 0, 2))
+		e.c02Text(s, f, "WithBuckets", "withBucketsSets", pickAssign("opts.buckets", 0))
+		e.c02Text(s, f, "WithCpuThreshold", "withThresholdSets", pickAssign("opts.cpuThreshold", 0))
+		e.c02Text(s, f, "WithWindow", "withWindowSets", pickAssign("opts.window", 0))
+		e.c02Text(s, f, "Disable", "disableSets", pickCallArg("enabled.Set", 0, 0))
+		e.shapeDef(s, f, "Disable", "disableShape")
+		if fd := c02VarFunc(s, f, "systemOverloadChecker"); fd != nil {
+			e.c02ExprFd(s, f, fd, "defaultCheckerCond", "BoolInt", pickReturn(0))
+		} else {
+			e.printf("def defaultCheckerCond : Unit := ()\n\n")
+		}
+		e.c02Text(s, f, "adaptiveShedder.systemOverloaded", "checkerArgument", pickCallArg("systemOverloadChecker", 0, 0))
+		const grp = "core/load/sheddergroup.go"
+		e.c02Text(s, grp, "NewShedderGroup", "groupStoresOptions", pickFieldN("options", 0))
+		e.c02Text(s, grp, "ShedderGroup.GetShedder", "groupKeyForwarded", pickCallArg("g.manager.GetResource", 0, 0))
+		e.c02Text(s, grp, "ShedderGroup.GetShedder", "groupOptionsForwarded", pickCallArg("NewAdaptiveShedder", 0, 0))
+		e.c02Text(s, grp, "ShedderGroup.GetShedder", "groupReturns", pickReturn(1))
+		const us = "core/stat/usage.go"
+		e.constDef(s, us, "beta", "cpuBeta")
+		e.constDef(s, us, "cpuRefreshInterval", "cpuRefreshInterval")
+		e.c02Expr(s, us, "init", "cpuEmaExpr", "Int", pickAssign("usage", 0))
+		e.c02Text(s, us, "init", "cpuEmaPrev", pickAssign("prevUsage", 0))
+		e.c02Text(s, us, "init", "cpuEmaCur", pickAssign("curUsage", 0))
+		e.c02Text(s, us, "init", "cpuEmaStored", pickCallArg("atomic.StoreInt64", 0, 1))
+		e.c02Text(s, us, "init", "cpuEmaStoredTo", pickCallArg("atomic.StoreInt64", 0, 0))
+		e.c02Text(s, us, "CpuUsage", "cpuUsageLoads", pickCallArg("atomic.LoadInt64", 0, 0))
+		const ss = "core/load/sheddingstat.go"
+		for _, m := range []string{"Total", "Pass", "Drop"} {
+			e.c02Text(s, ss, "SheddingStat.Increment"+m, "statIncrement"+m+"Field", pickCallArg("atomic.AddInt64", 0, 0))
+			e.c02Expr(s, ss, "SheddingStat.Increment"+m, "statIncrement"+m+"Delta", "Int", pickCallArg("atomic.AddInt64", 0, 1))
+		}
+		const hh = "rest/handler/sheddinghandler.go"
+		hreq := c02FuncLitWith(s, hh, "SheddingHandler", "shedder.Allow")
+		hdef := c02DeferFunc(s, hh, "SheddingHandler", 0)
+		e.c02ExprFd(s, hh, hdef, "httpFailCond", "BoolInt", pickIf(0))
+		e.c02IfBranches(s, hh, hdef, 0, "httpDefer")
+		e.c02IfBranches(s, hh, hreq, 0, "httpRefused", "logc.")
+		e.c02ExprFd(s, hh, hreq, "httpRefusedStatus", "Int", pickCallArg("w.WriteHeader", 0, 0))
+		if hreq != nil {
+			e.stringList("httpRequestSteps", "top-level statements of the request function of SheddingHandler", c02StmtCalls(s, hreq.Body.List))
+		} else {
+			e.errors = append(e.errors, "SheddingHandler: request function not found")
+			e.stringList("httpRequestSteps", "MISSING", []string{"MISSING"})
+		}
+		e.c02Text(s, hh, "SheddingHandler", "httpNilGuard", pickIf(0))
+		e.c02Expr(s, "rest/internal/response/withcoderesponsewriter.go", "NewWithCodeResponseWriter", "cwInitialCode", "Int", pickFieldN("Code", 0))
+		e.c02Text(s, "rest/internal/response/withcoderesponsewriter.go", "WithCodeResponseWriter.WriteHeader", "cwWriteHeaderStores", pickAssign("w.Code", 0))
+		const ri = "zrpc/internal/serverinterceptors/sheddinginterceptor.go"
+		rreq := c02FuncLitWith(s, ri, "UnarySheddingInterceptor", "shedder.Allow")
+		rdef := c02DeferFunc(s, ri, "UnarySheddingInterceptor", 0)
+		e.c02ExprFd(s, ri, rdef, "rpcFailCond", "BoolInt", pickIf(0))
+		e.c02IfBranches(s, ri, rdef, 0, "rpcDefer")
+		e.c02IfBranches(s, ri, rreq, 0, "rpcRefused")
+		e.c02Text(s, ri, "UnarySheddingInterceptor", "rpcRefusedCode", pickCallArg("status.Error", 0, 0))
+		e.c02Text(s, ri, "UnarySheddingInterceptor", "rpcRefusedMessage", pickCallArg("status.Error", 0, 1))
+		if rreq != nil {
+			e.stringList("rpcRequestSteps", "top-level statements of the interceptor function", c02StmtCalls(s, rreq.Body.List))
+		} else {
+			e.errors = append(e.errors, "UnarySheddingInterceptor: request function not found")
+			e.stringList("rpcRequestSteps", "MISSING", []string{"MISSING"})
+		}
+		e.c02Text(s, ri, "UnarySheddingInterceptor", "rpcHandlerCall", pickReturn(1))
 	})
 }
